@@ -552,7 +552,8 @@ fn gen_art_damage(rng: &mut Rng, runner: &Runner, n: usize) -> Op {
         .and_then(|o| o.pd.as_ref())
         .and_then(|p| p.0.iter().find(|(k, _)| *k == n).map(|(_, a)| match a { Art::File(b) => b.clone(), _ => Vec::new() }))
         .unwrap_or_default();
-    Op::Dmg(match rng.below(6) {
+    // same-size tampering twice as likely as the other kinds: only a signature check can notice it
+    Op::Dmg(match rng.below(7) {
         0 => Damage::ArtDel(n),
         1 => Damage::ArtSet(n, cur[..rng.below(cur.len() + 1).min(cur.len().saturating_sub(1))].to_vec()),
         2 => { let mut c = cur.clone(); let k = 1 + rng.below(8); c.extend(rng.bytes(k)); Damage::ArtSet(n, c) }
